@@ -169,6 +169,10 @@ def _init_worker():
         z3.set_param('memory_max_size', MEM_MB)
     except Exception:
         pass
+    try:        # z3 prints "terminate called ... out of memory" when it aborts at the ceiling: not part of the check's output
+        os.dup2(os.open(os.devnull, os.O_WRONLY), 2)
+    except Exception:
+        pass
     try:
         import resource
         lim = (MEM_MB + 2500) * 1024 * 1024
